@@ -61,7 +61,9 @@ def gen_digit_cases(ctx, n):
 def run(ctx):
     cirq = env.import_cirq()
     ctx.rule = ('digits: random mixed-radix bases (0..70 digits, integers beyond 64 bits) with in-range, boundary and '
-                'out-of-range values, int and per-digit base forms, binary fast path; non-trivial = >=2 digits and value>1. '
+                'out-of-range values, int and per-digit base forms, binary fast path, plus a fixed grid for every seed: every arrangement of the '
+                'dimensions 1, 2, 3 in registers of up to 4 digits with every representable value and the first one out of range, 5..6-digit '
+                'registers of 1s and 2s, registers beyond 64 bits mixing 1s into 2s/3s/4s; non-trivial = >=2 digits and value>1. '
                 'views: generated ResultDicts (0..17 repetitions, 1..5 keys, 1..3 instances per key, 0..70 qubits, bool/uint8/int64 '
                 'binary and mixed-radix digits) observed through measurements, data frame, histogram (default, fold_base int/list, '
                 'custom folds), multi_measurement_histogram (key subsets in any order), +, repetitions, JSON packing; r1 + r2 with a right operand of its own '
@@ -81,10 +83,17 @@ def run(ctx):
                 'qutrits, frozen circuits, keys whose measurements differ in qid shape (refused) - as a fixed grid for every seed plus generated ones; '
                 'Sampler._get_measurement_shapes and every ZerosSampler entry point against the documented (repetitions, instances, qubits) shape, against '
                 'the model, and against every view of the simulator result of the same all-zero circuit; non-trivial = some key has >= 2 instances; '
+                'simrecords: circuits that keep a computational-basis state (X / qudit +1 gates, integer or swept exponents, inverted readout) whose keys are measured '
+                'several times by registers reading DIFFERENT digits (dimensions 1, 2, 3 mixed), with all measurements terminal (one-shot sampling) and with gates '
+                'between the measurements (one walk per repetition), a fixed grid for every seed plus generated ones, through run/run_async/run_sweep(_async/_iter)/'
+                'run_batch(_async)/sample of Simulator, DensityMatrixSimulator (split_untangled_states on and off), CliffordSimulator and ClassicalStateSimulator; '
+                'records[key][repetition][instance] must be what that measurement reads (reference walk over the operations; the model re-runs it), every view of the '
+                'result must tell the same digits; non-trivial = >= 2 repetitions and a key whose instances read different rows; '
                 'distinct by canonical input')
     ctx.assumptions += ['vf/checks/c18.py adapters calling Cirq and canonicalising outputs',
                         'Python int <-> Coq Z literal printing',
                         'numpy, pandas and collections.Counter are modelled as list functions; the .npy header is parsed by numpy',
+                        'simrecords: gates are modelled by their action on basis states (X**k adds k mod 2, the qudit +1 gate to the power k adds k mod d); only such circuits are generated',
                         'record digits are integers in the model (no dtype); ProcessorSampler is driven through a model processor/job (duck-typed '
                         'run_sweep_async / results_async) that returns one result per sweep point for each program of a call, grouped by program']
     ctx.set_obligations(coq.compile_props('C18'))
@@ -102,6 +111,9 @@ def run(ctx):
         n = 70 if q else 900
         for shard in range(0, n, 300):
             shapes_stream(ctx, cirq, min(300, n - shard), shard)
+        n = 40 if q else 800
+        for shard in range(0, n, 200):
+            simrecords_stream(ctx, cirq, min(200, n - shard), shard)
         large_stream(ctx, cirq, LARGE_GRID + [ctx.rng.randint(50_002, 140_000) for _ in range(1 if q else 8)]
                      + ([150_000, 200_001] if not q else []), wide_at=(1,) if q else (1, 4, 7, 10))
     except Exception:
@@ -109,10 +121,36 @@ def run(ctx):
         ctx.mark_broken('harness-exception', traceback.format_exc()[-2000:])
 
 
+def radix_grid():
+    """(value, bases) every run judges, whatever VERIF_SEED: every arrangement of the dimensions 1, 2, 3 in registers of up to
+    4 digits with every representable value and the first one out of range; binary-looking registers of 5 and 6 digits holding
+    dimension-1 positions; registers wider than 64 bits mixing 1s into 2s and 3s."""
+    import itertools
+    out = []
+    for k in range(0, 5):
+        for bs in itertools.product((1, 2, 3), repeat=k):
+            prod = 1
+            for b in bs:
+                prod *= b
+            out += [(v, list(bs)) for v in range(prod + 1)]
+    for k in (5, 6):
+        for bs in itertools.product((1, 2), repeat=k):
+            if 1 in bs and 2 in bs and sum(bs) % 3 == 0:
+                prod = 2 ** bs.count(2)
+                out += [(v, list(bs)) for v in sorted({0, 1, prod // 2, prod // 3, prod - 2, prod - 1, prod})]
+    for bs in ([2] * 70, [2, 1] * 35, [1] + [2] * 69, [2] * 69 + [1], [3, 2] * 30, [3, 1, 2] * 20, [4, 1] * 33):
+        prod = 1
+        for b in bs:
+            prod *= b
+        out += [(v, list(bs)) for v in (0, 1, prod - 1, prod // 3, (1 << 64) % prod, (1 << 64) + 1, prod)]
+    return out
+
+
 def digits_stream(ctx, cirq, n):
-    cases = gen_digit_cases(ctx, n)
+    grid = radix_grid()
+    cases = grid + gen_digit_cases(ctx, n)
     rows_i2d, rows_d2i, rows_bits = [], [], []
-    for (v, bs) in cases:
+    for ci, (v, bs) in enumerate(cases):
         k = len(bs)
         uniform = k > 0 and all(b == bs[0] for b in bs)
         # call forms: per-digit list; int base with digit_count when uniform
@@ -162,7 +200,9 @@ def digits_stream(ctx, cirq, n):
             out2 = _impl_digits_to_int(cirq, ds + [0], list(bs))
             rows_d2i.append((ds + [0], bs, out2))
             ctx.count('digits_to_int', (ds + [0], bs), False)
-        # bits
+        # bits (alongside the generated cases only: the grid is about radices)
+        if ci < len(grid):
+            continue
         nb = ctx.rng.choice([0, 1, 3, 8, 64, 70])
         bits = [ctx.rng.random() < 0.5 for _ in range(nb)]
         ib = int(cirq.big_endian_bits_to_int(bits))
@@ -1298,6 +1338,310 @@ def shapes_stream(ctx, cirq, n, shard=0):
 
 
 
+# ------------------------------------------------------------------ simulators on circuits that keep a basis state
+# A circuit is written down abstractly: dims (the dimension of every qid) and moments of operations
+#   ['S', qid, amount, symbol-or-None]   add `amount` to the digit of the qid (X / the qudit +1 gate, to the power amount or symbol)
+#   ['M', key, [qid, ...], [inverted?, ...]]   measure the qids under the key
+# so that what every measurement reads is known from the circuit alone, for every repetition.
+BASIS_KEYS = ['m', 'single', 'ro', 'a', 'b', 'z']
+BASIS_SIMS = ['sv', 'sv-joint', 'dm', 'dm-joint', 'clifford', 'classical']
+
+
+def basis_sim(cirq, kind, seed):
+    return {'sv': lambda: cirq.Simulator(seed=seed), 'sv-joint': lambda: cirq.Simulator(seed=seed, split_untangled_states=False),
+            'dm': lambda: cirq.DensityMatrixSimulator(seed=seed), 'dm-joint': lambda: cirq.DensityMatrixSimulator(seed=seed, split_untangled_states=False),
+            'clifford': lambda: cirq.CliffordSimulator(seed=seed), 'classical': lambda: cirq.ClassicalStateSimulator()}[kind]()
+
+
+def basis_sim_name(kind):
+    return {'sv': 'Simulator', 'sv-joint': 'Simulator(split_untangled_states=False)', 'dm': 'DensityMatrixSimulator',
+            'dm-joint': 'DensityMatrixSimulator(split_untangled_states=False)', 'clifford': 'CliffordSimulator', 'classical': 'ClassicalStateSimulator'}[kind]
+
+
+def basis_circuit(cirq, spec):
+    import sympy
+    qid = lambda i: cirq.LineQubit(i) if spec['dims'][i] == 2 else cirq.LineQid(i, dimension=spec['dims'][i])
+    moments = []
+    for m in spec['moments']:
+        ops = []
+        for op in m:
+            if op[0] == 'S':
+                _, i, amt, sym = op
+                d = spec['dims'][i]
+                e = sympy.Symbol(sym) if sym else amt
+                if d == 1:
+                    ops.append(cirq.IdentityGate(qid_shape=(1,))(qid(i)))
+                elif d == 2:
+                    ops.append(cirq.X(qid(i)) if e == 1 and not sym else cirq.X(qid(i)) ** e)
+                else:
+                    ops.append(cirq.XPowGate(dimension=d)(qid(i)) ** e)
+            else:
+                _, key, qs, inv = op
+                if any(inv):
+                    ops.append(cirq.MeasurementGate(len(qs), key=key, qid_shape=tuple(spec['dims'][i] for i in qs),
+                                                    invert_mask=tuple(bool(x) for x in inv)).on(*[qid(i) for i in qs]))
+                else:
+                    ops.append(cirq.measure(*[qid(i) for i in qs], key=key))
+        moments.append(cirq.Moment(ops))
+    return cirq.Circuit(moments)
+
+
+def basis_flat_ops(spec, values):
+    """The operations in circuit order with the symbols replaced by their values (what the model is given)."""
+    out = []
+    for m in spec['moments']:
+        for op in m:
+            if op[0] == 'S':
+                out.append(('S', op[1], int(values[op[3]]) if op[3] else int(op[2])))
+            else:
+                out.append(('M', op[1], list(op[2]), [bool(x) for x in op[3]]))
+    return out
+
+
+def spec_basis_records(spec, values, reps):
+    """Reference semantics: walk the operations once per repetition; a measurement appends the digits it reads to its key.
+    Returns key -> repetitions x instances x qubits (keys in the order of their first measurement)."""
+    per_rep = collections.OrderedDict()
+    st = [0] * len(spec['dims'])
+    for op in basis_flat_ops(spec, values):
+        if op[0] == 'S':
+            st[op[1]] = (st[op[1]] + op[2]) % spec['dims'][op[1]]
+        else:
+            per_rep.setdefault(op[1], []).append([(1 - st[i]) if inv else st[i] for i, inv in zip(op[2], op[3])])
+    return collections.OrderedDict((k, [[list(row) for row in rows] for _ in range(reps)]) for k, rows in per_rep.items())
+
+
+def basis_is_terminal(spec):
+    flat = [op[0] for m in spec['moments'] for op in m]
+    return 'M' in flat and all(x == 'M' for x in flat[flat.index('M'):])
+
+
+def basis_grid():
+    """Circuits every run judges, whatever VERIF_SEED: a key measured several times whose instances read different digits
+    (in one moment and over several), next to a key measured once; qutrits; registers mixing dimensions 1, 2 and 3;
+    inverted readout; a swept preparation - each with all measurements terminal and with a gate between the measurements."""
+    S, M = (lambda q, a=1, sym=None: ['S', q, a, sym]), (lambda k, qs, inv=None: ['M', k, list(qs), list(inv or [0] * len(qs))])
+    out = []
+    def both(label, dims, prep, meas, sims, sweep=None, later=None):
+        out.append((label + ', all measurements terminal', dict(dims=dims, moments=[prep] + meas), sims, sweep))
+        out.append((label + ', a gate between the measurements', dict(dims=dims, moments=[prep, meas[0], later or [S(0, 0)]] + meas[1:]), sims, sweep))
+    every = BASIS_SIMS
+    dense = ['sv', 'sv-joint', 'dm', 'dm-joint']
+    both('two-qubit registers under one key reading 01 and 11, a second key measured once', [2, 2, 2, 2], [S(1), S(2), S(3)],
+         [[M('m', [0, 1])], [M('m', [2, 3]), M('single', [1])]], every)
+    both('parallel readout of three qubits under one key reading 1, 0, 1, then again', [2, 2, 2], [S(0), S(2)],
+         [[M('ro', [0]), M('ro', [1]), M('ro', [2])], [M('ro', [1]), M('ro', [0])]], every)
+    both('one qubit under one key four times, flipped in between', [2, 2], [S(0)], [[M('a', [0])], [M('a', [1])], [M('a', [0])], [M('a', [1])]], every,
+         later=[S(0), S(1)])
+    both('qutrits reading 1 and 2 under one key', [3, 3], [S(0, 1), S(1, 2)], [[M('z', [0])], [M('z', [1])]], dense)
+    both('qubit+qutrit registers under one key reading (1, 2) and (0, 1)', [2, 3, 2, 3], [S(0), S(1, 2), S(3, 1)],
+         [[M('m', [0, 1]), M('m', [2, 3])], [M('b', [3, 0])]], dense)
+    both('registers of dimensions (2, 1, 2) under one key reading 100 and 001', [2, 1, 2, 2, 2], [S(0), S(1, 0), S(4)],
+         [[M('m', [0, 1, 2])], [M('m', [3, 1, 4])]], dense)
+    both('registers of dimensions (1, 2, 2, 1) reading 0100 then 0010', [1, 2, 2, 1, 2], [S(1), S(0, 0)],
+         [[M('a', [0, 1, 2, 3])], [M('a', [0, 2, 1, 3]), M('single', [4])]], dense)
+    both('inverted readout under a repeated key', [2, 2, 2], [S(0)], [[M('m', [0, 1], [1, 0])], [M('m', [1, 2], [0, 1])], [M('m', [0, 2], [1, 1])]], every)
+    both('swept preparation, key measured twice', [2, 2, 2], [S(0, 1, 't'), S(1)], [[M('m', [0, 1])], [M('m', [1, 2]), M('z', [0])]], every, sweep=('t', [0, 1, 1]))
+    both('keys measured once only', [2, 2, 3], [S(0), S(2, 2)], [[M('a', [0, 1])], [M('b', [2]), M('z', [1, 0])]], dense)
+    return out
+
+
+def gen_basis_case(rng):
+    kind = rng.choice(BASIS_SIMS)
+    qubit_only = kind in ('clifford', 'classical')
+    n2, n3 = rng.randint(1, 5), (0 if qubit_only else rng.choice([0, 0, 1, 2]))
+    n1 = 0 if qubit_only else rng.choice([0, 0, 0, 1, 2])
+    dims = [2] * n2 + [3] * n3 + [1] * n1
+    rng.shuffle(dims)
+    by_dim = {d: [i for i, x in enumerate(dims) if x == d] for d in (1, 2, 3)}
+    forms = [f for f in [(2,), (2,), (2, 2), (2, 2, 2), (3,), (2, 3), (3, 2), (2, 1), (1, 2), (2, 1, 2), (1, 2, 2), (3, 1, 2), (1,)]
+             if all(f.count(d) <= len(by_dim[d]) for d in (1, 2, 3))]
+    pool = rng.sample(BASIS_KEYS, rng.choice([1, 1, 2, 3]))
+    form = {k: rng.choice(forms) for k in pool}
+    distinct = rng.random() < 0.15        # every measurement under a key of its own: the flat views and sample() exist
+    unused = list(BASIS_KEYS)
+    rng.shuffle(unused)
+    sym = rng.random() < 0.3
+    terminal = rng.random() < 0.6
+
+    def shifts(p):
+        m = []
+        for i in range(len(dims)):
+            if rng.random() < p:
+                if dims[i] == 2 and sym and rng.random() < 0.5:
+                    m.append(['S', i, 1, rng.choice(['t', 'u'])])
+                else:
+                    m.append(['S', i, rng.randrange(max(dims[i], 1)) if dims[i] != 2 else 1, None])
+        return m
+
+    def readout():
+        free = {d: rng.sample(by_dim[d], len(by_dim[d])) for d in (1, 2, 3)}
+        m, key0, same = [], rng.choice(pool), rng.random() < 0.5
+        for _ in range(rng.choice([1, 1, 2, 2, 3])):
+            key = key0 if same else rng.choice(pool)
+            if distinct:
+                if not unused:
+                    break
+                key = unused.pop()
+                form.setdefault(key, rng.choice(forms))
+            f = form[key]
+            if any(f.count(d) > len(free[d]) for d in (1, 2, 3)):
+                continue
+            qs = [free[d].pop() for d in f]
+            inv = [int(rng.random() < 0.5) for _ in f] if all(d == 2 for d in f) and rng.random() < 0.2 else [0] * len(f)
+            m.append(['M', key, qs, inv])
+        return m
+
+    moments = [shifts(0.6)]
+    if rng.random() < 0.3:
+        moments.append(shifts(0.4))
+    for j in range(rng.choice([1, 2, 2, 3, 4])):
+        if j and not terminal:
+            moments.append(shifts(0.5) or [['S', 0, 0 if dims[0] != 2 else 1, None]])
+        moments.append(readout())
+    if not any(op[0] == 'M' for m in moments for op in m):
+        moments.append([['M', pool[0], [by_dim[d].pop() for d in form[pool[0]]], [0] * len(form[pool[0]])]])
+    syms = sorted({op[3] for m in moments for op in m if op[0] == 'S' and op[3]})
+    sweep = None
+    if syms:
+        sweep = [(s, [rng.choice([0, 1]) for _ in range(3)]) for s in syms]
+    return kind, dict(dims=dims, moments=[m for m in moments if m]), sweep
+
+
+def judge_basis_case(ctx, cirq, label, spec, kind, sweep, reps, rows=None):
+    """One basis-state circuit through every run entry point of one simulator, judged by what the circuit's measurements
+    read (reference walk), repetition by repetition and instance by instance, and through every view of the result."""
+    import duet
+    circuit = basis_circuit(cirq, spec)
+    if sweep is None:
+        sw, values = None, [{}]
+    else:
+        pairs = sweep if isinstance(sweep, list) else [sweep]
+        npts = len(pairs[0][1])
+        sw = cirq.Zip(*[cirq.Points(s, list(v)) for s, v in pairs])
+        values = [{s: v[i] for s, v in pairs} for i in range(npts)]
+    resolvers = list(cirq.to_resolvers(sw))
+    sim = basis_sim(cirq, kind, ctx.rng.randrange(2 ** 31))
+    name = basis_sim_name(kind)
+    want = [spec_basis_records(spec, vals, reps) for vals in values]
+    shape_of = {k: (len(v[0]), len(v[0][0])) for k, v in spec_basis_records(spec, values[0], 1).items()}      # (instances, qubits) of every key
+    terminal = basis_is_terminal(spec)
+    cs = str(circuit)
+    rp = dict(kind='simrecords', label=label, spec=spec, sim=kind, sweep=sweep, repetitions=reps)
+    ckey = [kind, spec['dims'], spec['moments'], sweep, reps]
+    repeated = any(len(v[0]) >= 2 and any(r != v[0][0] for r in v[0]) for w in want for v in w.values() if v)
+    ctx.count('simrecords:circuit', ckey, reps >= 2 and repeated,
+              sample=dict(simulator=name, circuit=cs, repetitions=reps, terminal=terminal, reads={k: v[0] if v else [] for k, v in want[0].items()}))
+    if terminal:
+        ctx.count('simrecords:repeated-key-terminal', ckey, reps >= 2 and repeated)
+    if 1 in spec['dims']:
+        ctx.count('simrecords:dimension-1-qid', ckey, any(1 in [spec['dims'][i] for i in op[2]] and len(op[2]) >= 2 for m in spec['moments'] for op in m if op[0] == 'M'))
+    pr0 = resolvers[0]
+    entries = collections.OrderedDict()
+    entries['run'] = lambda: ([sim.run(circuit, pr0, reps)], [0])
+    entries['run_async'] = lambda: ([duet.run(sim.run_async, circuit, pr0, reps)], [0])
+    entries['run_sweep'] = lambda: (list(sim.run_sweep(circuit, sw, reps)), list(range(len(resolvers))))
+    entries['run_sweep_async'] = lambda: (list(duet.run(sim.run_sweep_async, circuit, sw, reps)), list(range(len(resolvers))))
+    entries['run_sweep_iter'] = lambda: (list(sim.run_sweep_iter(circuit, sw, reps)), list(range(len(resolvers))))
+    entries['run_batch'] = lambda: ((lambda b: list(b[0]) + list(b[1]))(sim.run_batch([circuit, circuit], [sw, pr0], reps)), list(range(len(resolvers))) + [0])
+    entries['run_batch_async'] = lambda: ((lambda b: list(b[1]) + list(b[0]))(duet.run(sim.run_batch_async, [circuit, circuit], [pr0, sw], [reps, reps])),
+                                          list(range(len(resolvers))) + [0])
+    for how, call in entries.items():
+        if how == 'run_sweep_iter' and not hasattr(sim, 'run_sweep_iter'):
+            continue
+        ctx.count('simrecords:' + how, ckey, reps >= 2 and repeated)
+        try:
+            results, which = call()
+        except ValueError as e:
+            ctx.violation('simulator:basis-records', f'{name}.{how}(repetitions={reps}) raised ValueError({str(e)[:120]!r}) for {label}:\n{cs}\n', dict(rp, entry=how))
+            continue
+        if len(results) != len(which):
+            ctx.violation('simulator:basis-records', f'{name}.{how}(repetitions={reps}) returned {len(results)} results for {len(which)} sweep points for {label}:\n{cs}\n', dict(rp, entry=how))
+            continue
+        for res, wi in zip(results, which):
+            exp = want[wi]
+            got = collections.OrderedDict((str(k), np.asarray(v)) for k, v in res.records.items())
+            why = None
+            if set(got) != set(exp):
+                why = f'keys {sorted(got)} for measured keys {sorted(exp)}'
+            for k in exp:
+                if why is None and (got[k].ndim != 3 or digits_of(got[k]) != exp[k] or got[k].shape != (reps,) + shape_of[k]):
+                    inst = next(((r, j) for r in range(min(reps, got[k].shape[0])) for j in range(min(len(exp[k][r]), got[k].shape[1] if got[k].ndim == 3 else 0))
+                                 if [int(x) for x in got[k][r, j]] != exp[k][r][j]), None)
+                    why = (f'records[{k!r}] = {got[k].tolist()} (shape {got[k].shape})' +
+                           (f'; repetition {inst[0]}, instance {inst[1]} of the key reads {exp[k][inst[0]][inst[1]]}' if inst else '') +
+                           f'; the circuit reads {exp[k][0] if reps else []} in every one of the {reps} repetitions')
+            if why is None and res.params != resolvers[wi]:
+                why = f'params {res.params} for sweep point {resolvers[wi]}'
+            if why is None and how == 'run_sweep':       # every other view of the result tells the same story as a result holding the digits read
+                ref = cirq.ResultDict(params=resolvers[wi], records={k: np.array(v, dtype=np.uint8).reshape((reps,) + shape_of[k]) for k, v in exp.items()})
+                va, vb = result_views(cirq, res), result_views(cirq, ref)
+                diff = [v for v in va if v != 'str' and va[v] != vb.get(v)]
+                if reps and all(a.shape[2] > 0 for a in got.values()) and not str_spells_records(str(res), collections.OrderedDict((k, np.asarray(ref.records[k])) for k in exp)):
+                    diff.append('str')
+                if diff:
+                    why = f'views {diff} differ from those of the digits read: { {v: (va[v], vb.get(v)) for v in diff[:2]} }'
+            if why is not None:
+                ctx.violation('simulator:basis-records', f'{name}.{how}(repetitions={reps}), sweep point {dict(resolvers[wi].param_dict)}, {"all measurements terminal" if terminal else "general path"}: '
+                              f'{why} for {label}:\n{cs}\n', dict(rp, entry=how, point=wi))
+                break
+        if rows is not None and how == 'run_sweep':
+            for res, wi in zip(results, which):
+                if any(np.asarray(v).ndim != 3 for v in res.records.values()):
+                    continue
+                rows.append((spec['dims'], basis_flat_ops(spec, values[wi]), reps, collections.OrderedDict((str(k), np.asarray(v)) for k, v in res.records.items())))
+    # -- sample: the data frame (keys measured once only; a repeated key is refused)
+    single = all(len(v[0]) == 1 for v in want[0].values()) if reps else None
+    if reps:
+        try:
+            df = sim.sample(circuit, repetitions=reps, params=sw)
+        except ValueError:
+            df = None
+        ctx.count('simrecords:sample', ckey, bool(single) and reps >= 2)
+        if (df is None) != (not single):
+            ctx.violation('simulator:basis-records', f'{name}.sample(repetitions={reps}) {"refused keys measured once" if df is None else "accepted a repeated key"} for {label}:\n{cs}\n', dict(rp, entry='sample'))
+        elif df is not None:
+            exp_rows = [[int(spec_int(w[k][r][0], [2] * len(w[k][r][0]))) for k in w] for w in want for r in range(reps)]
+            got_rows = [[int(df[k].iloc[i]) for k in want[0]] for i in range(len(df))]
+            if got_rows != exp_rows:
+                ctx.violation('simulator:basis-records', f'{name}.sample(repetitions={reps}) has rows {got_rows} for keys {list(want[0])}, the circuit reads {exp_rows} '
+                              f'(sweep point by sweep point, repetition by repetition) for {label}:\n{cs}\n', dict(rp, entry='sample'))
+
+
+def simrecords_stream(ctx, cirq, n, shard=0):
+    rng = ctx.rng
+    kid = {k: i for i, k in enumerate(BASIS_KEYS)}
+    rows, cases = [], []
+    if shard == 0:
+        for gi, (label, spec, sims, sweep) in enumerate(basis_grid()):
+            for si, kind in enumerate(sims):
+                cases.append((label, spec, kind, sweep, 2 if (gi + si) % 3 == 0 else 3))
+            cases.append((label, spec, sims[gi % len(sims)], sweep, [1, 5, 0][gi % 3]))
+    for _ in range(n):
+        kind, spec, sweep = gen_basis_case(rng)
+        cases.append(('generated circuit', spec, kind, sweep, rng.choice([0, 1, 2, 2, 3, 3, 5])))
+    for label, spec, kind, sweep, reps in cases:
+        judge_basis_case(ctx, cirq, label, spec, kind, sweep, reps, rows)
+    # ---- the model (Codec/BasisRun.v) on the same circuits
+    ZL = coq.zlist
+    bl = lambda b: 'true' if b else 'false'
+    op_lit = lambda o: (f'Shift {o[1]} {coq.zlit(o[2])}' if o[0] == 'S' else
+                        f'Meas {kid[o[1]]} [' + '; '.join(f'({q}%nat, {bl(i)})' for q, i in zip(o[2], o[3])) + ']')
+    text = ('From Coq Require Import ZArith List Bool.\nFrom VF Require Import Base.Harness Codec.ResultViews Codec.BasisRun.\n'
+            'Import ListNotations.\nOpen Scope Z_scope.\n' + COQ_FOLDS)
+    text += 'Definition c_basis : list (list Z * bcircuit * nat * result) := [\n' + ';\n'.join(
+        f'({ZL(dims)}, [' + '; '.join(op_lit(o) for o in ops) + f'], {reps}%nat, {res_lit(recs, kid)})' for dims, ops, reps, recs in rows) + '].\n'
+    text += ('Eval vm_compute in failing (fun c => match c with (dims, ops, reps, r) => res_eqb (basis_result reps dims ops) r '
+             '&& (negb (terminal ops) || list_eqb (pair_eqb Z.eqb (list_eqb zll_eqb)) '
+             '(map (fun k => (k, one_shot_records reps k (fun _ => final_state dims ops) ops)) (bfirst_keys ops [])) (map (fun kr => (fst kr, r_data (snd kr))) r)) end) c_basis.\n')
+    vals = coq.parse_evals(coq.coq_eval(f'c18_simrecords_{ctx.seed}_{shard}', text))
+    assert len(vals) == 1, vals
+    for idx in coq.parse_nat_list(vals[0]):
+        dims, ops, reps, recs = rows[idx]
+        ctx.mark_broken('correspondence:simulator:basis-records', f'model and simulator differ on dims {dims}, operations {ops}, {reps} repetitions: '
+                        f'records { {k: a.tolist() for k, a in recs.items()} }'[:1500])
+
+
 # ------------------------------------------------------------------ sampler defaults
 def sampler_stream(ctx, cirq, n):
     import duet, sympy
@@ -1776,6 +2120,15 @@ def replay(ctx, data):
                           None if data.get('sweep') is None else cirq.read_json(json_text=data['sweep']), data['repetitions'])
         for v in sub.violations:
             print(v['what'][:700])
+        return not sub.violations and not sub.known_hits
+    if k == 'simrecords':
+        sub = runner.Ctx('C18', 'quick', data.get('seed', 0), LEVEL)
+        sw = data.get('sweep')
+        if sw is not None:
+            sw = [tuple(x) for x in sw] if isinstance(sw[0], (list, tuple)) else tuple(sw)
+        judge_basis_case(sub, cirq, data.get('label', 'replayed circuit'), data['spec'], data['sim'], sw, data['repetitions'])
+        for v in sub.violations:
+            print(v['what'][:900])
         return not sub.violations and not sub.known_hits
     if k == 'procsampler':
         sub = runner.Ctx('C18', 'quick', data.get('seed', 0), LEVEL)
